@@ -16,7 +16,9 @@ CFG = {
         "range_cardinality zero": r"^range_cardinality .*=> 0",
         "is_full false": r"^is_full .*=> false",
     },
-    "gaps": ["well-formedness of the value is a hypothesis: discharged for values produced by the mutators proved in C01 (producer table of C04)"],
+    "gaps": ["well-formedness of the value is a hypothesis: discharged for values produced by the mutators proved in C01 (producer table of C04)",
+             "fidelity audit of the store kernels and 32-bit iterators (notes/fidelity-stores-iter32.md): ArrayStore / BitmapStore min, max, rank, select (word loop + clear-lowest-bit loop), contains, contains_range (len shortcut, single-word vs first/middle/last masks) were all found mirrored branch for branch (class M); nothing to switch",
+             "fidelity audit (notes/fidelity-bitmap-core.md): all ten queries follow inherent.rs branch for branch; the one deviation (rank sums the chunks before the hit in reverse in its Ok arm, inherent.rs:700) is now mirrored by Bitmap.rankMirror, which the driver executes; rank_mirror_eq (unconditional) and C07_rank_mirror / C07_rank_select_mirror / C07_select_rank_mirror restate the theorems for it. RoaringBitmap::full() has a model definition (Bitmap.full) and C07_full (well-formed, is_full() = true, 2^32 elements) but is never executed by the driver"],
     "level_text": "Theorems (Lean 4, kernel-checked) that the model of len/is_empty/min/max/rank/select/range_cardinality/contains_range returns the order statistic of the sorted element list for every well-formed value and every argument; model tied to the Rust source by differential runs with boundary-biased query batches in two build profiles.",
     "level_note": "Trusted: Lean kernel; model mirrors code (checked on generated cases only); Spec.lean; std binary_search modelled by contract. is_full()=true and RoaringBitmap::full() are not executed on the Lean side (2^32 elements do not fit a list): covered by the theorem only. Missing theorems listed in evidence coverage.proof_gaps.",
 }
